@@ -39,6 +39,7 @@ def dags(draw, max_nodes=30, kinds=("exec", "comm", "io")):
     """nodes with kinds and amounts, edges u -> v with u < v (layered: predecessors are taken among the previous nodes, mostly recent ones)"""
     n = draw(st.one_of(st.integers(1, 8), st.integers(1, 8), st.integers(1, max_nodes)))
     nodes, edges = [], []
+    hub = draw(st.integers(0, max(0, n // 2))) if draw(st.booleans()) else None
     for v in range(n):
         kind = draw(st.sampled_from(kinds))
         if kind == "exec":
@@ -51,7 +52,9 @@ def dags(draw, max_nodes=30, kinds=("exec", "comm", "io")):
         if v > 0:
             npred = draw(st.sampled_from([0, 1, 1, 1, 2, 2, 3]))
             lo = max(0, v - 6) if draw(st.integers(0, 3)) > 0 else 0
-            preds = draw(st.lists(st.integers(lo, v - 1), unique=True, max_size=npred))
+            preds = set(draw(st.lists(st.integers(lo, v - 1), unique=True, max_size=npred)))
+            if hub is not None and hub < v and draw(st.integers(0, 2)) > 0:
+                preds.add(hub)                  # fan-out: one node with many successors, themselves with other predecessors
             for u in sorted(preds):
                 edges.append([u, v])
     return nodes, edges
@@ -608,4 +611,7 @@ def check(case, log, oc, labels):
             labels.add("zero-duration-" + nd["kind"])
         labels.add("kind-" + nd["kind"])
     labels.add("nodes>10" if len(nodes) > 10 else "nodes<=10")
+    succs = {v: [w for u, w in edges if u == v] for v in range(len(nodes))}
+    if any(len(succs[v]) >= 3 and any(len(preds[w]) >= 2 for w in succs[v]) for v in succs):
+        labels.add("fan-out>=3-into-joins")
     return nontrivial
